@@ -837,18 +837,34 @@ func c22Sat(a [][]byte) *Case {
 	for c22LevelBad(kind, level) {
 		level++
 	}
+	c22Init() // the queues must exist (with the tier's capacity) before anything below uses them
+	mkIn := func() *c22HandlerIn {
+		in := &c22HandlerIn{which: 'B', level: 6, bl: 4, ae: []byte(kind), hasAE: true, mode: 'b', parts: [][]byte{src}}
+		if probe == 'S' {
+			in.mode = 's'
+		}
+		return in
+	}
+	// first use, queue idle: afterwards the pools hold a stackless writer (closed by its release) for this coding and
+	// level, so the probe below RE-ACQUIRES a pooled writer — its Reset meets the full queue like every other operation
+	switch probe {
+	case 'H', 'S':
+		c22RunHandler(mkIn())
+	default:
+		c22Compress(kind, probe, level, []byte("dst:"), src) //nolint:errcheck
+	}
 	release, ok, info := c22Saturate(q)
 	var v Verdict
 	var impl string
 	if ok {
 		switch probe {
 		case 'H', 'S': // a handler wrapper while the queue is full: buffered ('H') or streamed ('S') body
-			in := &c22HandlerIn{which: 'B', level: 6, bl: 4, ae: []byte(map[string]string{"gzip": "gzip", "deflate": "deflate", "br": "br", "zstd": "zstd"}[kind]), hasAE: true,
-				mode: 'b', parts: [][]byte{src}}
-			if probe == 'S' {
-				in.mode = 's'
-			}
+			in := mkIn()
 			out := c22RunHandler(in)
+			if v0, _ := c22JudgeHandler(in, out, string(in.ae)); v0.Kind == VOk {
+				in = mkIn() // and once more: second re-acquisition under saturation
+				out = c22RunHandler(in)
+			}
 			v, _ = c22JudgeHandler(in, out, string(in.ae))
 			if v.Kind == VSpec {
 				v.Key = "queue-full-" + v.Key
@@ -857,6 +873,9 @@ func c22Sat(a [][]byte) *Case {
 			impl = fmt.Sprintf("ce=%s body=%d werr=%v", out.ce, len(out.wireBody), out.werr)
 		default:
 			out, err := c22Compress(kind, probe, level, []byte("dst:"), src)
+			if v0 := c22CheckOutput(kind, probe, level, []byte("dst:"), src, out, err, "queue-full"); v0.Kind == VOk {
+				out, err = c22Compress(kind, probe, level, []byte("dst:"), src) // second re-acquisition under saturation
+			}
 			v = c22CheckOutput(kind, probe, level, []byte("dst:"), src, out, err, "queue-full")
 			if v.Kind == VSpec {
 				v.Detail = "with the stackless queue full (" + info + "): " + v.Detail
@@ -884,6 +903,7 @@ func c22Tail(a [][]byte) *Case {
 	if !c22IsKind(kind) {
 		return nil
 	}
+	c22Init()
 	var release func()
 	var ok bool
 	var info string
@@ -1224,6 +1244,12 @@ func c22Storm(a [][]byte) *Case {
 		wg.Add(1)
 		go func(i int) {
 			defer wg.Done()
+			defer func() {
+				if e := recover(); e != nil {
+					firstBad.CompareAndSwap(nil, Verdict{VSpec, "concurrent-panic", fmt.Sprintf("call %d panicked: %v", i, e)})
+					results[i].err = fmt.Errorf("panic: %v", e)
+				}
+			}()
 			kind := c22Kinds[i%4]
 			api := apis[(i/4)%len(apis)]
 			src := []byte(fmt.Sprintf("%s-%d-%x-", kind, i, seed))
@@ -1336,6 +1362,9 @@ func init() {
 			}
 			for i, p := range []byte("GGGGSSSS") {
 				emit("sat", B("writer"), []byte{p}, N(i), text(300+r.Intn(3000)))
+			}
+			for i, p := range []byte("GGGG") { // default and extreme levels of every coding through the pooled stackless writers
+				emit("sat", B("writer"), []byte{p}, N(4+i), text(300+r.Intn(3000)))
 			}
 			for _, k := range c22Kinds {
 				emit("tail", B(k), text(600+r.Intn(4000)))
